@@ -140,6 +140,15 @@ def _analyze_expression(
     if not np.issubdtype(scalar_type, np.complexfloating):
         expression = ufl.algorithms.remove_complex_nodes.remove_complex_nodes(expression)
 
+    # The kernel can only represent expressions that are linear in their
+    # arguments: terms of a different arity would be dropped silently
+    arguments = ufl.algorithms.extract_arguments(expression)
+    if arguments:
+        try:
+            ufl.algorithms.check_arities.check_integrand_arity(expression, arguments, False)
+        except ufl.algorithms.check_arities.ArityMismatch as e:
+            raise ValueError(f"Expression is not linear in its arguments: {e}") from None
+
     return expression
 
 
